@@ -120,11 +120,9 @@ impl Board {
 
 impl MoveGen {
     pub fn is_empty(&self) -> bool {
-        if let [legals, ..] = &self.moves[self.index..] {
-            return (legals.moves & self.mask).none();
-        }
-
-        true
+        self.moves[self.index..]
+            .iter()
+            .all(|legals| (legals.moves & self.mask).none())
     }
 
     pub fn len(&self) -> usize {
@@ -134,7 +132,7 @@ impl MoveGen {
 
         for legals in &self.moves[self.index..] {
             if (legals.moves & self.mask).none() {
-                break;
+                continue;
             }
             let count = (legals.moves & self.mask).count() as usize;
             len += if legals.promotion {
@@ -216,15 +214,17 @@ impl Iterator for MoveGen {
 
     fn next(&mut self) -> Option<Self::Item> {
         let legals = &mut self.moves[..];
+
+        // skip entries that have nothing (left) under the current mask
+        while self.index < legals.len() && (legals[self.index].moves & self.mask).none() {
+            self.index += 1;
+        }
+
         if self.index >= legals.len() {
             return None;
         }
 
         let legal = &mut legals[self.index];
-
-        if (legal.moves & self.mask).none() {
-            return None;
-        }
 
         if legal.promotion {
             let &promotion = self.promotions.next().unwrap();
